@@ -133,8 +133,8 @@ Proof.
     destruct (Nat.eq_dec c v) as [->|Hne].
     + simpl. rewrite Nat.eqb_refl. rewrite recon_skip by assumption.
       rewrite IH; [|assumption|lia]. rewrite <- app_assoc. reflexivity.
-    + assert (Hv' : good rest v) by (eapply good_cons_inv; eauto).
-      rewrite recon_skip; [|assumption|assumption|assumption|assumption]. Show.
+    + assert (Hv' : good rest v) by (apply (good_cons_inv c p0); [congruence|exact Hv]).
+      rewrite recon_skip by assumption.
       simpl anc. destruct (Nat.eqb c v) eqn:E; [apply Nat.eqb_eq in E; congruence|].
       apply IH; [exact Hv'|lia].
 Qed.
@@ -170,7 +170,7 @@ Proof.
   - destruct Hv as [->|Hv]; [apply is_path_single|simpl in Hv; congruence].
   - simpl. destruct (Nat.eqb c v) eqn:E.
     + apply Nat.eqb_eq in E. subst v. apply is_path_snoc with (u := p0); auto.
-    + apply IH. eapply good_cons_inv; eauto. intros ->. rewrite Nat.eqb_refl in E. discriminate.
+    + apply IH. apply (good_cons_inv c p0); [|exact Hv]. intros ->. rewrite Nat.eqb_refl in E. discriminate.
 Qed.
 
 (* ---- adding the entries of one expansion ---- *)
@@ -181,13 +181,13 @@ Proof.
   rewrite (Nat.eqb_sym v x). destruct (Nat.eqb x v); [reflexivity|exact IH].
 Qed.
 
-Lemma depth_entries cur l par v : ~ In cur l ->
+Lemma depth_entries cur l par : ~ In cur l -> forall v,
   depth (entries cur l ++ par) v = if mem v l then S (depth par cur) else depth par v.
 Proof.
-  induction l as [|x l IH]; intros Hc; simpl; [reflexivity|].
+  induction l as [|x l IH]; intros Hc v; simpl; [reflexivity|].
   assert (Hc' : ~ In cur l) by (intros H; apply Hc; now right).
   rewrite (Nat.eqb_sym v x). destruct (Nat.eqb x v) eqn:E.
-  - rewrite IH by assumption. replace (mem cur l) with false; [reflexivity|].
+  - rewrite (IH Hc' cur). replace (mem cur l) with false; [reflexivity|].
     symmetry. apply mem_false. exact Hc'.
   - apply IH. exact Hc'.
 Qed.
@@ -218,36 +218,41 @@ Definition goal_test (goal : option (nat -> bool)) (x : nat) : bool :=
 Definition pop_expand (m : mode) (succ : nat -> list nat) (st : state) (cur : nat) (rest : list nat) : state :=
   expand m cur (succ cur) (mk (visited st) (parent st) rest).
 
-(* how the loop can end, in terms of the state it ends in *)
-Inductive outcome (m : mode) (goal : option (nat -> bool)) (max_iter : Z) : state -> result -> Prop :=
-| out_empty : forall st it, frontier st = [] -> outcome m goal max_iter st (finish goal max_iter it st)
+(* how the loop can end, in terms of the state and iteration count it ends with *)
+Inductive outcome (m : mode) (goal : option (nat -> bool)) (max_iter : Z) : Z -> state -> result -> Prop :=
+| out_empty : forall st it, frontier st = [] -> outcome m goal max_iter it st (finish goal max_iter it st)
 | out_limit : forall st it, (max_iter <= it)%Z -> frontier st <> [] ->
-    outcome m goal max_iter st (finish goal max_iter it st)
-| out_goal : forall st cur rest, frontier st = cur :: rest -> goal_test goal cur = true ->
-    outcome m goal max_iter st
+    outcome m goal max_iter it st (finish goal max_iter it st)
+| out_goal : forall st it cur rest, frontier st = cur :: rest -> goal_test goal cur = true ->
+    outcome m goal max_iter it st
       (match reconstruct_path (parent st) cur with
        | Some p => Found (found_status m) p (Z.of_nat (length p) - 1)
        | None => Hang
        end).
 
-Lemma loop_end m succ goal max_iter (P : state -> Prop) :
-  (forall st cur rest, P st -> frontier st = cur :: rest -> goal_test goal cur = false ->
-     P (pop_expand m succ st cur rest)) ->
-  forall fuel it st r, P st -> loop fuel m succ goal max_iter it st = Some r ->
-  exists st', P st' /\ outcome m goal max_iter st' r.
+Lemma loop_end m succ goal max_iter (P : Z -> state -> Prop) :
+  (forall it st cur rest, P it st -> frontier st = cur :: rest -> goal_test goal cur = false ->
+     P (it + 1)%Z (pop_expand m succ st cur rest)) ->
+  forall fuel it st r, P it st -> loop fuel m succ goal max_iter it st = Some r ->
+  exists it' st', P it' st' /\ outcome m goal max_iter it' st' r.
 Proof.
   intros Hstep. induction fuel as [|f IH]; intros it st r HP Hl; [discriminate|].
   simpl in Hl. destruct (frontier st) as [|cur rest] eqn:Ef.
-  - injection Hl as <-. exists st. split; [exact HP|]. now apply out_empty.
+  - injection Hl as <-. exists it, st. split; [exact HP|]. now apply out_empty.
   - destruct (it <? max_iter)%Z eqn:Elt.
     + fold (goal_test goal cur) in Hl. destruct (goal_test goal cur) eqn:Eg.
-      * exists st. split; [exact HP|].
-        pose proof (out_goal m goal max_iter st cur rest Ef Eg) as Ho.
+      * exists it, st. split; [exact HP|].
+        pose proof (out_goal m goal max_iter st it cur rest Ef Eg) as Ho.
         destruct (reconstruct_path (parent st) cur); injection Hl as <-; exact Ho.
       * eapply IH; [|exact Hl]. eapply Hstep; eauto.
-    + injection Hl as <-. exists st. split; [exact HP|]. apply out_limit.
+    + injection Hl as <-. exists it, st. split; [exact HP|]. apply out_limit.
       * apply Z.ltb_ge in Elt. exact Elt.
       * rewrite Ef. discriminate.
+Qed.
+
+Lemma in_pushall m news fr v : In v (pushall m news fr) <-> In v fr \/ In v news.
+Proof.
+  destruct m; simpl; rewrite in_app_iff; [tauto|]. rewrite <- in_rev. tauto.
 Qed.
 
 (* ---- invariant A: parent map well formed, visited = start + keys, frontier within visited ---- *)
@@ -267,14 +272,9 @@ Proof.
   - intros v H. exact H.
 Qed.
 
-Lemma in_pushall m news fr v : In v (pushall m news fr) <-> In v fr \/ In v news.
-Proof.
-  destruct m; simpl; rewrite in_app_iff; [tauto|]. rewrite <- in_rev. tauto.
-Qed.
-
 Lemma invA_step m st cur rest : invA st -> frontier st = cur :: rest -> invA (pop_expand m succ st cur rest).
 Proof.
-  intros (Hwf & Hvis & Hfr) Ef. unfold pop_expand. rewrite expand_char. cbn [visited parent frontier].
+  intros (Hwf & Hvis & Hfr) Ef. unfold pop_expand, invA. rewrite expand_char. cbn [visited parent frontier].
   set (news := fresh (succ cur) (visited st)).
   assert (Hcur : good start (parent st) cur) by (apply Hvis, Hfr; rewrite Ef; now left).
   assert (Hnews : forall x, In x (rev news) -> In x (succ cur) /\ ~ good start (parent st) x).
@@ -304,11 +304,11 @@ Lemma loop_found m goal max_iter fuel it st r : invA st ->
   end.
 Proof.
   intros Hinv Hl.
-  destruct (loop_end m succ goal max_iter invA (fun st cur rest H E _ => invA_step m st cur rest H E)
-              fuel it st r Hinv Hl) as (st' & (Hwf & Hvis & Hfr) & Ho).
-  inversion Ho as [st0 it0 Ef|st0 it0 Hle Hne|st0 cur rest Ef Eg]; subst.
-  - unfold finish. destruct goal; [destruct (max_iter <=? it0)%Z|]; exact I.
-  - unfold finish. destruct goal; [destruct (max_iter <=? it0)%Z|]; exact I.
+  destruct (loop_end m succ goal max_iter (fun _ => invA) (fun _ st cur rest H E _ => invA_step m st cur rest H E)
+              fuel it st r Hinv Hl) as (it' & st' & (Hwf & Hvis & Hfr) & Ho).
+  inversion Ho as [st0 it0 Ef|st0 it0 Hle Hne|st0 it0 cur rest Ef Eg]; subst.
+  - unfold finish. destruct goal; [destruct (max_iter <=? it')%Z|]; exact I.
+  - unfold finish. destruct goal; [destruct (max_iter <=? it')%Z|]; exact I.
   - assert (Hg : good start (parent st') cur) by (apply Hvis, Hfr; rewrite Ef; now left).
     rewrite (reconstruct_path_anc succ start _ _ Hwf Hg). split; [reflexivity|].
     exists cur. split; [apply chain_is_path; assumption|]. split; [exact Eg|reflexivity].
